@@ -128,7 +128,17 @@ class Weaver:
            ensures_raw='', no_unwind=False, lost=None):
         rel = self.cur['src']
         within = self.cur_impl
-        text, it = self.find(rel, 'fn ' + name, within=within)
+        try:
+            text, it = self.find(rel, 'fn ' + name, within=within)
+        except LostAnchor as e:
+            if trusted:
+                raise
+            # the function no longer exists under this name (removed / renamed / merged): nothing to verify for it in this
+            # run; properties that list it become inconclusive, callers that still mention it are handled by the fallback
+            q0 = '%s::%s%s' % (self.cur['name'], (self._impl_short(within) + '::') if within else '', name)
+            self.report.setdefault('lost', []).append({'fn': q0, 'props': list(props), 'reason': str(e)})
+            self.report['functions'].append({'path': q0, 'props': list(props), 'kind': 'lost', 'origin': rel})
+            return
         if within is not None:
             self.used[(rel, within.key())].add(it.key())
         raw = text[it.start:it.end]
@@ -162,7 +172,7 @@ class Weaver:
             if vis is not None:
                 body = re.sub(r'^pub\s+', '', body) if vis == '' else body
             body = self._drop_body(body, q)
-            body = self._weave_fn(body, q, ret, requires, ensures, {}, (), (), '', mutself, decreases, ensures_raw, no_unwind)
+            body = self._weave_fn(body, q, ret, requires, ensures, {}, (), (), '', False, decreases, ensures_raw, no_unwind)
             self.report.setdefault('lost', []).append({'fn': q, 'props': list(props), 'reason': lost})
         for a in attrs:
             body = '#[%s]\n' % a + body
